@@ -69,6 +69,11 @@ def run(rep, pid, prop_file, gen, n_quick, n_thorough, disciplines, oracle, rule
     if extra_histories:
         for name, ul, ol, meta in extra_histories(rng, rep.tier):
             hists.append((name, ul, eng_run.build_script(ul, ol, meta, 'all', rng), meta, ol))
+    # feature-interaction scenarios (eng_scen): corners random histories seldom reach
+    import eng_scen
+    for k, (name, ul, ol, meta) in enumerate(eng_scen.scenarios(rng, rep.tier)):
+        disc = 'all' if k % 3 else 'some'
+        hists.append((name, ul, eng_run.build_script(ul, ol, meta, disc, rng), meta, ol))
     res = eng_run.Result()
     model_ok = True
     try:
